@@ -59,7 +59,7 @@ structure Arena where
   usage : Nat
   max : Nat
   nextId : Nat
-  deriving Repr, Inhabited
+  deriving Repr, Inhabited, DecidableEq
 
 namespace Arena
 
@@ -145,7 +145,7 @@ structure LArena where
   usage : Nat
   max : Nat
   nextId : Nat
-  deriving Repr, Inhabited
+  deriving Repr, Inhabited, DecidableEq
 
 namespace LArena
 
